@@ -329,6 +329,57 @@ fn many_segments_case(n: usize, with_checkpoint: bool) -> Option<(String, String
     None
 }
 
+/// Recovery of a store with (or without) a checkpoint and `n` segments while ONE store call of the recovery fails
+/// (every call index; for reads of the checkpoint and the segments also: succeeds with one flipped byte). Recovery may
+/// report the failure; if it reports success it must return the merge of everything persisted - never a part of it.
+fn faulted_recovery_case(n: usize, with_checkpoint: bool) -> Option<(String, String)> {
+    use vh::stores::ObjFault;
+    let layout = Layout {
+        checkpoint: if with_checkpoint { Some(vec![Upd { key: 250, kind: Kind::SetA, time: 1, replica: 1 }, Upd { key: 251, kind: Kind::SetB, time: 1, replica: 1 }]) } else { None },
+        segments: (0..n).map(|i| vec![Upd { key: i as u8 + 1, kind: Kind::SetA, time: i as u64 + 2, replica: 1 }]).collect(),
+    };
+    let mut want = Fold::new();
+    for u in layout.all_updates() {
+        fold_into(&mut want, &u.delta());
+    }
+    let image = build_store(&layout).image_now();
+    let probe = VObjStore::from_image(&image);
+    probe.reset_call_counter();
+    block_on(RecoveryManager::new(probe.clone(), PREFIX, 1).recover()).ok()?;
+    let calls = probe.calls();
+    let ops = probe.log();
+    for i in 0..calls {
+        for fault in [ObjFault::Fail, ObjFault::CorruptRead] {
+            let target = ops.get(i).map(|o| (o.kind, o.key.clone())).unwrap_or(("?", String::new()));
+            if matches!(fault, ObjFault::CorruptRead) && (target.0 != "get" || target.1.contains("manifest")) {
+                continue; // a flipped byte in the manifest's JSON is C14's subject
+            }
+            for entry in ["recover", "recover_with_wal"] {
+                let store = VObjStore::from_image(&image);
+                store.reset_call_counter();
+                store.set_plan(&[(i, fault)]);
+                let rm = RecoveryManager::new(store.clone(), PREFIX, 1);
+                let empty_wal = WalRotator::new(VWalStore::new(), 1 << 30).expect("rotator");
+                let res = if entry == "recover" { block_on(rm.recover()) } else { block_on(rm.recover_with_wal(&empty_wal)) };
+                if let Ok(r) = res {
+                    let mut f: Fold = r.checkpoint_state.map(|m| m.into_iter().collect()).unwrap_or_default();
+                    for d in &r.deltas {
+                        fold_into(&mut f, d);
+                    }
+                    if projection(&f) != projection(&want) {
+                        let what = if target.1.contains("checkpoint") || target.1.contains(".chk") { "checkpoint" } else if target.1.contains("manifest") { "manifest" } else { "segment" };
+                        return Some((
+                            format!("{entry} under-one-fault returns-part-of-the-state fault={}@{}:{what}", if matches!(fault, ObjFault::Fail) { "fail" } else { "corrupt-read" }, target.0),
+                            format!("{n} segments{}: store call #{i} of the recovery ({} {}) {}; {entry}() returned Ok with {:?}, everything persisted merges to {:?}", if with_checkpoint { " behind a checkpoint of 2 keys" } else { "" }, target.0, target.1, if matches!(fault, ObjFault::Fail) { "fails once" } else { "returns the object with one flipped byte" }, projection(&f).keys().collect::<Vec<_>>(), projection(&want).keys().collect::<Vec<_>>()),
+                        ));
+                    }
+                }
+            }
+        }
+    }
+    None
+}
+
 /// Recovery as the server does it (StreamingIntegration::recover into a real node) of a store holding a checkpoint and
 /// `n_deltas` updates behind it: the checkpoint's key `acct` is overwritten by the FIRST delta, deleted key `gone` is
 /// deleted by the second; the rest are fresh keys. The node must end up holding the merge, however many deltas there are.
@@ -410,6 +461,19 @@ fn main() {
         let r = vh::report::load_replay(path);
         if r["integration_recover"] == json!(true) {
             match integration_recover_case(r["n"].as_u64().unwrap() as usize, r["segments"].as_u64().unwrap() as usize) {
+                Some((sig, detail)) => {
+                    println!("{sig}: {detail}");
+                    println!("VIOLATION property=C11 replay={}", path.display());
+                    std::process::exit(1);
+                }
+                None => {
+                    println!("replay: no violation");
+                    std::process::exit(0);
+                }
+            }
+        }
+        if r["faulted_recovery"] == json!(true) {
+            match faulted_recovery_case(r["n"].as_u64().unwrap() as usize, r["checkpoint"].as_bool().unwrap_or(false)) {
                 Some((sig, detail)) => {
                     println!("{sig}: {detail}");
                     println!("VIOLATION property=C11 replay={}", path.display());
@@ -503,6 +567,13 @@ fn main() {
             }
         }
     }
+    // recovery while one store call fails or returns damaged bytes
+    let faulted: Vec<(usize, bool)> = [1usize, 2, 3, 9].iter().flat_map(|n| [(*n, false), (*n, true)]).collect();
+    for ((n, cp), r) in faulted.iter().zip(par::par_map(&faulted, |_, (n, cp)| faulted_recovery_case(*n, *cp))) {
+        if let Some((sig, detail)) = r {
+            rep.violation(sig, detail, json!({"faulted_recovery": true, "n": n, "checkpoint": cp}));
+        }
+    }
     // recovery as the server does it, with a checkpoint and up to thousands of updates behind it
     let integ_items: Vec<(usize, usize)> = [2usize, 3, 100, 255, 256, 257, 1023, 1024, 1025, 4095, 4096, 4097, 6001, 8193].iter().flat_map(|n| [(*n, 1usize), (*n, 3)]).collect();
     let integ_res = par::par_map(&integ_items, |_, (n, segs)| std::panic::catch_unwind(|| integration_recover_case(*n, *segs)).unwrap_or_else(|p| Some(("integration-recover panic".to_string(), vh::panic_text(&p)))));
@@ -526,6 +597,8 @@ fn main() {
         "cases": cases_n.load(Ordering::Relaxed),
         "integration_recover_cases": integ_items.len(),
         "integration_recover_rule": "a checkpoint of three keys plus n updates behind it (n around every power of two up to 8193, in 1 or 3 segments; the first update overwrites a checkpoint key, the second deletes one) recovered through StreamingIntegration::recover into a real node: the node's replication state must be the merge of everything persisted",
+        "faulted_recovery_cases": faulted.len(),
+        "faulted_recovery_rule": "1, 2, 3, 9 segments without and behind a checkpoint; every store call of recover() / recover_with_wal() fails once, and every read of the checkpoint or a segment also returns the object with one flipped byte: recovery reports an error or returns the merge of everything persisted",
         "many_segment_cases": many.len(),
         "many_segment_rule": "n segments for every n in 1..=40 and the neighbours of 64, 128, 256, without and behind a checkpoint; segment i holds a key of its own and a new value of a shared key: recover() and recover_with_wal() must return every key and the shared key's newest value",
         "cases_applied_to_a_real_node": node_n.load(Ordering::Relaxed),
